@@ -262,6 +262,27 @@ func (p *IDPool) Harvest(m protoreflect.Message, depth int) {
 					p.mu.Unlock()
 				}
 			}
+		case fd.IsMap() && fd.MapKey().Kind() == protoreflect.StringKind:
+			// names used as map keys (and string map values) are ids too: mode names and their values, ...
+			add := func(s string) {
+				if s == "" {
+					return
+				}
+				p.mu.Lock()
+				if len(p.ids) < 64 {
+					p.ids = append(p.ids, s)
+				}
+				p.mu.Unlock()
+			}
+			n := 0
+			v.Map().Range(func(k protoreflect.MapKey, mv protoreflect.Value) bool {
+				add(k.String())
+				if fd.MapValue().Kind() == protoreflect.StringKind {
+					add(mv.String())
+				}
+				n++
+				return n < 4
+			})
 		case fd.Message() != nil && fd.IsList():
 			l := v.List()
 			for i := 0; i < l.Len() && i < 4; i++ {
@@ -312,6 +333,22 @@ func (p *IDPool) Apply(rng *vk.Rand, m protoreflect.Message, depth int) {
 			}
 		case n == "page_size" || n == "page_token":
 			m.Clear(fd)
+		case fd.IsMap() && fd.MapKey().Kind() == protoreflect.StringKind && len(ids) > 0 && rng.Chance(2, 3):
+			// maps keyed by names the server described earlier (mode values, relative adjustments, ...): random keys alone
+			// never hit an entry the server knows
+			if rng.Chance(1, 4) {
+				m.Clear(fd)
+			}
+			mp := m.Mutable(fd).Map()
+			for k := rng.Range(1, 2); k > 0; k-- {
+				key := protoreflect.ValueOfString(ids[rng.Intn(len(ids))]).MapKey()
+				switch fd.MapValue().Kind() {
+				case protoreflect.StringKind:
+					mp.Set(key, protoreflect.ValueOfString(ids[rng.Intn(len(ids))]))
+				case protoreflect.Int32Kind, protoreflect.Sint32Kind, protoreflect.Sfixed32Kind:
+					mp.Set(key, protoreflect.ValueOfInt32(int32(rng.Range(-2, 2))))
+				}
+			}
 		case fd.Message() != nil && !fd.IsList() && !fd.IsMap() && m.Has(fd):
 			p.Apply(rng, m.Mutable(fd).Message(), depth+1)
 		}
